@@ -41,7 +41,7 @@ type c19arg struct {
 	LogFile  string `json:"log_file"`
 }
 
-var c19scenarios = []string{"sync-full-incr-reconnect", "sync-resume-checkpoint", "sync-psync-refused-restart", "restore", "rump", "dump", "supervisor", "supervisor-retries-exhausted", "sync-cluster-source", "checkpoint-load", "status-documents"}
+var c19scenarios = []string{"sync-full-incr-reconnect", "sync-resume-checkpoint", "sync-psync-refused-restart", "restore", "rump", "dump", "supervisor", "supervisor-retries-exhausted", "sync-cluster-source", "sync-cluster-source-resume", "checkpoint-load", "status-documents"}
 
 func setLevel(l string) {
 	switch l {
@@ -174,11 +174,12 @@ func c19scenarioChild(raw json.RawMessage, scratch string) {
 		in := slot.SyncNode{Id: 4, Source: n1.addr, SourcePassword: a.SrcPw, Target: []string{"127.0.0.1:1"}, TargetPassword: a.TgtPw, Slaves: []string{n2.addr, "127.77.9.7:9"}, SlotLeftBoundary: 0, SlotRightBoundary: 16383}
 		nd, err := slotsupervisor.New(in).GetSlotState()
 		log.Infof("supervisor result: %v err=%v", nd != nil, err)
-	case "sync-cluster-source":
+	case "sync-cluster-source", "sync-cluster-source-resume":
 		// the use at sync start: DbSyncer.Sync() with source.type=cluster re-discovers the shard's master (the configured
 		// source is a dead node, a known replica was promoted), runs full + incremental sync, loses the link and restarts
 		c := base
 		c.SourceType = conf.RedisTypeCluster
+		c.ResumeFromBreakPoint = a.Scenario == "sync-cluster-source-resume" // the status document differs with resume on
 		master, _ := fakesource.New(fakesource.Script{RunID: e2eRunID, StartOffset: 10, RDB: minimalRDB(rng, c19keys(rng)), ResumeMode: "refuse"}, a.SrcPw)
 		dead := &fakeNode{Script: []string{bErr}}
 		dead.start()
